@@ -13,16 +13,39 @@ def fnmatch_ref(p, s, bracket_backslash="quote"):
         members = []
         if j < len(p) and p[j] == "]":
             members.append("]"); j += 1
-        while j < len(p) and p[j] != "]":
+        def atom(j):
+            """-> (char, next index, quoted) or None"""
             if p[j] == "\\" and bracket_backslash == "quote":
                 if j + 1 >= len(p):
                     return None
-                members.append(p[j + 1]); j += 2
-                continue
-            members.append(p[j]); j += 1
+                return p[j + 1], j + 2, True
+            return p[j], j + 1, False
+        if members:                       # a leading ']' may start a range
+            if j + 1 < len(p) and p[j] == "-" and p[j + 1] != "]":
+                hi = atom(j + 1)
+                if hi is None: return None
+                members[-1] = ("]", hi[0]); j = hi[1]
+        while j < len(p) and p[j] != "]":
+            lo = atom(j)
+            if lo is None: return None
+            c, j, _q = lo
+            if j + 1 < len(p) and p[j] == "-" and p[j + 1] != "]":
+                hi = atom(j + 1)
+                if hi is None: return None
+                members.append((c, hi[0])); j = hi[1]
+            else:
+                members.append(c)
         if j >= len(p) or not members:
             return None
         return neg, members, j + 1
+
+    def in_members(ch, members):
+        for mbr in members:
+            if isinstance(mbr, tuple):
+                if mbr[0] <= ch <= mbr[1]: return True
+            elif mbr == ch:
+                return True
+        return False
 
     def go(pi, si):
         while pi < len(p):
@@ -42,13 +65,53 @@ def fnmatch_ref(p, s, bracket_backslash="quote"):
                 b = bracket(pi)
                 if b is not None:
                     neg, members, nxt = b
-                    if si >= len(s) or ((s[si] in members) == neg): return False
+                    if si >= len(s) or (in_members(s[si], members) == neg): return False
                     pi = nxt; si += 1; continue
             if si >= len(s) or s[si] != c: return False
             pi += 1; si += 1
         return si == len(s)
-    # a pattern ending in a lone backslash matches nothing
-    k, esc = 0, False
     return go(0, 0)
 
 
+def has_reversed_range(p, bracket_backslash="quote"):
+    """a range whose start sorts after its end is undefined in POSIX: such patterns are outside the comparison.
+    Only ranges inside something that parses as a bracket expression count (found with the reference's own bracket parser)."""
+    found = []
+
+    class Probe(str):
+        pass
+    # re-use fnmatch_ref's parser by walking the pattern the way go() does, on a subject that never matches
+    def scan(pi):
+        while pi < len(p):
+            c = p[pi]
+            if c == "\\":
+                pi += 2; continue
+            if c == "[":
+                j = pi + 1
+                if j < len(p) and p[j] == "!": j += 1
+                first = True
+                items = []
+                ok = False
+                while j < len(p):
+                    if p[j] == "]" and not first:
+                        ok = True; break
+                    if p[j] == "\\" and bracket_backslash == "quote":
+                        if j + 1 >= len(p): break
+                        items.append(p[j + 1]); j += 2
+                    else:
+                        items.append(("raw", p[j])); j += 1
+                    first = False
+                if ok:
+                    flat = [x[1] if isinstance(x, tuple) else x for x in items]
+                    raw_dash = [isinstance(x, tuple) and x[1] == "-" for x in items]
+                    k = 0
+                    while k < len(flat):
+                        if k + 2 < len(flat) and raw_dash[k + 1]:
+                            if flat[k] > flat[k + 2]: found.append((flat[k], flat[k + 2]))
+                            k += 3
+                        else:
+                            k += 1
+                    pi = j + 1; continue
+            pi += 1
+    scan(0)
+    return bool(found)
